@@ -349,6 +349,10 @@ def execute(case):
                     if rse.exit == 0 and rse.signal is None and not core.text_of(rse.stderr).strip():
                         if ro or any(core.read_rel(sc.root, f) != written[f] for f in W):
                             v.add("C06:silent-stdout-error|%s" % tag, "write to stdout failed with errno %d, yet exit 0 and nothing on stderr although %s need(s) rewriting" % (en, sorted(W)[:2]))
+        # --check wins over an emit mode given as a configuration override: still read-only, same verdict
+        rco, _ = run("check-config-emit", ["--check", "--config", "emit_mode=%s" % ["Files", "Stdout", "Json"][case["hashseed"] % 3]] + rootargs)
+        if not core.text_of(rco.stderr).strip() and rco.exit != (1 if W else 0):
+            v.add("C06:check-exit-vs-rewrite|config-emit_mode", "--check --config emit_mode=..: exit %s, files mode rewrites %s" % (rco.status(), sorted(W)))
         rcl, _ = run("check-l", ["--check", "-l"]+ rootargs)
         if _names(rcl.stdout, cwd_abs, sc.root) != sorted(W) and not core.text_of(rcl.stderr).strip():
             v.add("C06:check-l-names", "--check -l printed %s, files rewritten %s" % (_names(rcl.stdout, cwd_abs, sc.root), sorted(W)))
